@@ -125,6 +125,10 @@ def tie(tier, seed, replay):
             cjobs.append(dict(id=jid, text=dl.rust_program_text(c["prog"]), macro=macro, rels=c["prog"]["rels"], scripts=scripts, threads=(3 if macro == "ascent_par" else None)))
             meta[jid] = (r, "concurrent", macro)
     cimpl = prog.build_and_run("c20c", cjobs, nbins=2, run_timeout=300, main_mode="threads") if cjobs else {}
+    # (3) index level: the CRelNoIndex pool protocol on the real type vs the Coq protocol model (gen/props/c20_index.py)
+    from . import c20_index
+    ix = c20_index.run(tier, seed)
+    mism += ix.get("mismatches", [])
     distinct, kinds = set(), {}
     for jid, m in meta.items():
         r = m[0]
@@ -150,11 +154,11 @@ def tie(tier, seed, replay):
                     mism.append(dict(case=dict(cs, snapshot=j), impl={bad[0]: isnap[bad[0]]}, model=None, spec={bad[0]: sg[bad[0]][1]}, kind="impl_violates_spec", known=None,
                                      what="%s configuration: relation %s differs from the instance run alone (snapshot %d)" % (m[1], bad[0], j)))
                     break
-    return dict(evaluations=len(results) + len(distinct), distinct_nontrivial=len(distinct),
+    return dict(evaluations=len(results) + len(distinct) + ix.get("evaluations", 0), distinct_nontrivial=len(distinct),
                 rule="random programs: (1) ascent_par! instance constructed in a pool of a threads, run in a pool of b, run again in a pool of c, then under a nested install (a, b, c from {1,2,3,5,8,16}); (2) every job of a binary (different generated types, serial and parallel) runs at the same time on its own OS thread, plus two instances of the same type racing; each result must equal the instance run alone (= specification); plus a source scan listing every static / thread_local / lazy_static of the four crates against a reviewed allow-list; distinct = (program, configuration)",
                 samples=[dict(program=r["text"], input=r["case"]["inputs"][0]) for r in results[:2]],
                 distribution=dict(programs=len(results), configurations=kinds, statics_found=["%s:%s" % f for f in found]), mismatches=mism,
                 trusted_base=["source scan for shared state (regular expressions over the .rs files)", "FRONT hook; generated crates",
                               "RESIDUE: data races on the `static mut` timing statistics are UB in principle; they are not observable in results"],
                 assumptions=["rayon::current_thread_index() < number of threads of the pool the call runs in"],
-                extra=dict(cases_skipped_model_too_slow=nskipped))
+                extra=dict(cases_skipped_model_too_slow=nskipped, index_level=ix.get("extra", {}).get("index_level", {k: v for k, v in ix.items() if k in ("evaluations", "distinct_nontrivial")})))
